@@ -9,7 +9,7 @@ use crate::{
     eng::{action_name, Engine, F, R},
     gen::{chacha, Cfg, Triple, TripleSpec, BITS},
     props::c03::{build_member, pool_member_valid, verify_members, Member, PoolMember},
-    refimpl::{vec_gens, Grp},
+    refimpl::Grp,
     runner::{guarded, no_fixed, sub, CaseLog, PropertyDef, RunCtx, Sub, Tier},
 };
 
@@ -81,7 +81,9 @@ pub fn oracle<E: Engine>(ctx: &RunCtx, spec: &CapSpec, log: &mut CaseLog) -> Res
     };
     let t = Triple::<E>::build(&tspec)?;
     let proof = guarded(|| t.prove())?.map_err(|e| format!("prover refused a valid witness under capacity {}: {:?}", cp, e))?;
-    // generator (i, j) is the same point whatever capacity was requested, and equals the reference derivation
+    // generator (i, j) is the same point whatever capacity was requested: the vectors for m, c_p and c_v agree on their
+    // common prefix, party by party (that they are the DOCUMENTED points is C11's subject)
+    let mut base: Option<(Vec<E::P>, Vec<E::P>)> = None;
     for c in [m, cp, cv] {
         let params = E::params(bits, c, spec.ext).map_err(|e| format!("params: {:?}", e))?;
         let gi: Vec<E::P> = params.gi_base_iter().cloned().collect();
@@ -89,17 +91,21 @@ pub fn oracle<E: Engine>(ctx: &RunCtx, spec: &CapSpec, log: &mut CaseLog) -> Res
         if gi.len() != bits * c || hi.len() != bits * c {
             return Err(format!("capacity {} yields {} / {} vector generators instead of {}", c, gi.len(), hi.len(), bits * c));
         }
-        for party in 0..c {
-            let rg = vec_gens::<E::P>(b'G', party as u32, bits);
-            let rh = vec_gens::<E::P>(b'H', party as u32, bits);
-            for j in 0..bits {
-                if gi[party * bits + j] != rg[j] || hi[party * bits + j] != rh[j] {
-                    return Err(format!(
-                        "generator (party {}, index {}) under capacity {} differs from the capacity-independent derivation",
-                        party, j, c
-                    ));
+        match &base {
+            None => base = Some((gi, hi)),
+            Some((g0, h0)) => {
+                for t in 0..bits * m.min(c) {
+                    if gi[t] != g0[t] || hi[t] != h0[t] {
+                        return Err(format!(
+                            "generator (party {}, index {}) under capacity {} differs from the same generator under capacity {}",
+                            t / bits,
+                            t % bits,
+                            c,
+                            m
+                        ));
+                    }
                 }
-            }
+            },
         }
     }
     // verify under the verifier's capacity, alone
@@ -184,8 +190,8 @@ pub fn def() -> PropertyDef {
         level: "exploration",
         rule: "A case is an aggregate of m in {1,2,4,8} commitments proved under capacity c_p = m*2^a and verified under a statement rebuilt with \
                capacity c_v = m*2^b (a, b in 0..4, all bit lengths, degrees 1-6), alone and inside a batch of up to 5 other valid members with \
-               their own capacities in generated order, in each verify mode. Oracle: accepted alone and in the batch, masks aligned; for each of the \
-               capacities m, c_p, c_v every vector generator (party i, index j) equals the capacity-independent reference derivation. \
+               their own capacities in generated order, in each verify mode. Oracle: accepted alone and in the batch, masks aligned; the \
+               vector generators obtained for capacities m, c_p and c_v agree on their common prefix, party by party. \
                Non-trivial = c_p != c_v or a batch with >= 2 distinct capacities; distinct by (bits, m, c_p, c_v, #capacities, mode, degree)."
             .into(),
         assumptions: vec!["size bound bits*capacity <= 1024 (quick F) / 256 (quick R)".into()],
